@@ -935,10 +935,14 @@ func (r *hdRun) exec(o *hdOp) string {
 		if s.mcu.gated && o.Mk == "offer" {
 			// an offer is handled in the connection's own goroutine: with a gated media server the
 			// connection stays busy until the creation completes, so no marker can be answered
+			// (an offer for a stream that already has a publisher is answered without a creation: the answer
+			// carries no id, so anything that arrives on the connection ends the wait - otherwise it lasts the
+			// whole 2 s, in which a connection that has not said hello yet runs into its timeout)
 			before := s.mcu.created()
+			had := c.nmsgs()
 			if err := c.send(data); err == nil {
 				deadline := time.Now().Add(2 * time.Second)
-				for time.Now().Before(deadline) && s.mcu.created() == before && !c.hasId("m") {
+				for time.Now().Before(deadline) && s.mcu.created() == before && !c.hasId("m") && c.nmsgs() == had {
 					time.Sleep(200 * time.Microsecond)
 				}
 			}
